@@ -30,12 +30,14 @@ for root, _, files in os.walk(ovl):
         if os.path.exists(dst):
             sys.exit("refusing to shadow existing file " + dst)
         rep[dst] = os.path.join(root, f)
-if pid in ("C17",):
+if pid in ("C17",) and not os.environ.get("VERIF_REALPOOL"):
     mc = subprocess.check_output(["go", "env", "GOMODCACHE"], text=True).strip()
     tp = glob.glob(os.path.join(mc, "github.com/pbenner/threadpool@*/threadpool.go"))
     if len(tp) != 1:
         sys.exit("threadpool module not found in module cache")
     rep[tp[0]] = os.path.join(ovl, "_threadpool", "threadpool.go")
+    for extra in ("verif_race.go", "verif_norace.go"):
+        rep[os.path.join(os.path.dirname(tp[0]), extra)] = os.path.join(ovl, "_threadpool", extra)
 TICK = ("C04", "C05", "C06", "C07", "C20")
 if pid in TICK and not os.environ.get("VERIF_NOTICK"):
     out = os.path.join(scratch, "instr")
